@@ -5,12 +5,6 @@ import BasicModel.Model.Parse
 -/
 namespace Basic
 
-/-- a lexed source line (`lang::Line`) -/
-structure Line where
-  number : Option Nat
-  tokens : List Token
-deriving Inhabited, DecidableEq
-
 structure Program where
   errors : List Error := []
   indirectErrors : List Error := []
